@@ -70,4 +70,26 @@ CLAIMED.update({
     },
 })
 
+CLAIMED.update({
+    "C06": {
+        "text": "Theorems: a fresh instance reads every non-oneof field as its proto3 default and encodes to zero bytes (dump_fresh, induction over the field list); an implicit-presence field "
+                "equal to its default contributes no bytes; a proto3-optional field, a selected oneof member or a wrapper field set to ANY scalar value (default included) is emitted with "
+                "its own tag first; a plain sub-message that equals a fresh instance is emitted exactly when serialized_on_wire is set. 'Set after decoding exactly when the reference reports "
+                "HasField/WhichOneof' is the differential part (reference on the same bytes, full {never, default, non-default} × {constructor, assignment, parse, from_dict} matrix).",
+        "note": TB + "HasField/WhichOneof agreement is observed against google.protobuf, not proved (the reference cannot be brought into Lean).",
+        "technique": "Lean 4 proof (case analysis of the emission decision; induction over the field list) + differential correspondence + reference presence comparison",
+        "design_ref": "DESIGN.md §7 C06",
+    },
+    "C14": {
+        "text": "Theorems: for every schema (optional fields singular) and every instance, the attribute reads an observer performs (lazy default materialisation of every readable slot) change "
+                "neither bytes(m) nor len(m) (materialize_invisible: induction over the slot list, per-kind lemma that a PLACEHOLDER slot and its materialised default encode alike), nor the oneof "
+                "selection, serialized_on_wire, unknown fields or any slot that held a value; copy and deepcopy keep class, serialized_on_wire and unknown fields verbatim and re-derive a selection "
+                "satisfying the oneof invariant; a pickle round trip is parse(bytes(m)). Equality and byte-faithfulness of copies and the independence of deep copies are checked on the implementation.",
+        "note": TB + "PARTIAL: independence of a deep / unpickled copy is aliasing, which a pure functional model cannot exhibit — checked at run time by mutating every mutable path of the copy; "
+                "byte-equality of copies with the original is observed (oracle + lock-step correspondence), not proved.",
+        "technique": "Lean 4 proof (invariance of the encoder under default materialisation) + lock-step differential correspondence + run-time aliasing check",
+        "design_ref": "DESIGN.md §7 C14",
+    },
+})
+
 NOT_CLAIMED = {}
